@@ -50,9 +50,9 @@ def clock_configs(tier):
         out += [("vector", dict(kind="vector", n=2, L=6, variant="others"), 1)]
         out += [("vector", dict(kind="vector", n=3, L=6, variant="partial"), 2)]
         out += [("vector", dict(kind="vector", n=3, L=5, variant=v), 1) for v in ("full", "self", "others")]
-        # HLC, 2 nodes: all 16 ordered pairs of clock models; 7 steps for 3 of them, 6 steps for the rest;
+        # HLC, 2 nodes: all 16 ordered pairs of clock models; 7 steps for 2 of them, 6 steps for the rest;
         # the receive-timestamp modes alternate
-        deep = [("id", "+skew"), ("-skew", "id"), ("fast", "-skew")]
+        deep = [("id", "+skew"), ("fast", "-skew")]
         k = 0
         for a in M4:
             for b in M4:
